@@ -242,6 +242,19 @@ Theorem C18_hash_foreign_id_refuted :
                /\ gr_procs g = [mkG 0 (mkI [] [] [S_STAR]); mkG 1 (mkI [S_STAR] [] [])] /\ instances ev = [10; 11].
 Proof. exact hash_foreign_id_refuted. Qed.
 
+(* the reflected Parser.LOOP_CHECK is the documented depth 3 *)
+Theorem C18_loop_check_as_documented :
+  loop_check_init = doc_depth.
+Proof. exact loop_check_as_documented. Qed.
+
+(* a group without sign is left as it is, as the specification demands *)
+Theorem C18_resolve_no_sign_unchanged :
+  forall ev g,
+  no_sign (gr_procs g) = true ->
+  exists g', resolve_rules ev g = Ok g' /\ group_obs g' = group_obs g
+             /\ spec_resolve ev (gr_procs g) = Some (group_obs g).
+Proof. exact resolve_no_sign_unchanged. Qed.
+
 (* ---------------------------------------------------------------- options *)
 From Sup Require Import Options OptionsProofs.
 
@@ -344,3 +357,14 @@ Proof. exact synchro_default_aliasing_refuted. Qed.
 Theorem C18_collecting_period_default_vs_doc :
   go_default_collecting_period = 5 /\ go_default_collecting_period <> 10.
 Proof. exact collecting_period_default_differs_from_doc. Qed.
+
+(* the defaults of the options are the documented ones *)
+Theorem C18_defaults_as_documented :
+  go_default_ttl = 1 /\ go_default_timeout = 15 /\ go_default_ticks = 2 /\ go_default_histo = 200
+  /\ go_default_auto_fence = false /\ go_default_irix = false
+  /\ go_default_event_link = go_EventLinks_NONE /\ go_default_conciliation = go_ConciliationStrategies_USER
+  /\ go_default_starting = go_StartingStrategies_CONFIG
+  /\ go_default_failure = go_SupvisorsFailureStrategies_CONTINUE
+  /\ go_default_host_stats = true /\ go_default_proc_stats = true
+  /\ go_default_stats_periods = [10] /\ go_default_tail_limit = 1024.
+Proof. exact defaults_as_documented. Qed.
